@@ -32,38 +32,68 @@ Definition x_obs (r : xres) : obs :=
 
 Definition ev_eqb (a b : nat * gate) : bool := Nat.eqb (fst a) (fst b) && gate_eqb (snd a) (snd b).
 
-Record observed := { o_outs : list (list xres); o_trace : list (nat * gate); o_complete : bool }.
+(* o_certs: per entity the key pair of the certificate it publishes (SecurityContext.my_cert
+   identified against the certificates of the fixture key pairs) *)
+Record observed := { o_outs : list (list xres); o_trace : list (nat * gate); o_complete : bool; o_certs : list nat }.
 
-Definition case := (input tsig * observed)%type.
+(* how the model is run for the case: OS workers (None: one fresh OS thread per job, the schedule names
+   jobs), and what the model says about the entities: the key pair each signs with and the key pair of
+   the certificate each publishes.  The `keys` of the input proper are the certificates the property
+   speaks of: given directly, or `published d` of a deployment d. *)
+Record setting := { s_workers : option (list (list nat)); s_keys : list nat; s_certs : list nat }.
+
+Definition case := (input tsig * setting * observed)%type.
+Definition c_in (c : case) : input tsig := fst (fst c).
+Definition c_set (c : case) : setting := snd (fst c).
+Definition c_obs (c : case) : observed := snd c.
 
 Definition mk (ks : list nat) (g : list gate) (ps : list (nat * list (op tsig))) (s : list nat)
   (oo : list (list xres)) (tr : list (nat * gate)) (complete : bool) : case :=
   ({| keys := ks; gon := g; progs := ps; sched := s |},
-   {| o_outs := oo; o_trace := tr; o_complete := complete |}).
+   {| s_workers := None; s_keys := ks; s_certs := ks |},
+   {| o_outs := oo; o_trace := tr; o_complete := complete; o_certs := ks |}).
+
+(* deployment d (main thread: install key pairs at paths, build entities, run jobs), OS workers ws
+   (worker 0 = the main thread), schedule over workers; trace events name the JOB that met the gate *)
+Definition mk_pool (d : list dstep) (g : list gate) (ps : list (nat * list (op tsig))) (ws : list (list nat))
+  (s : list nat) (oo : list (list xres)) (tr : list (nat * gate)) (complete : bool) (certs : list nat) : case :=
+  ({| keys := published d; gon := g; progs := ps; sched := s |},
+   {| s_workers := Some ws; s_keys := deploy_keys d; s_certs := deploy_certs d |},
+   {| o_outs := oo; o_trace := tr; o_complete := complete; o_certs := certs |}).
 
 Definition outs_x (ks : list nat) (st : state tsig) : list (list xres) := map (map (to_x ks)) (outs tsig st).
 Definition same_outs (a b : list (list xres)) : bool := list_eqb (list_eqb xres_eqb) a b.
 
-Definition agrees (c : case) : bool :=
-  let x := fst c in let o := snd c in let st := tfinal x in
-  same_outs (outs_x (keys x) st) (o_outs o)
-  && list_eqb ev_eqb (trace st) (o_trace o)
-  && Bool.eqb (finished tsig st) (o_complete o).
+(* the model's input: the entities sign with the keys the model says they loaded *)
+Definition m_in (c : case) : input tsig :=
+  {| keys := s_keys (c_set c); gon := gon (c_in c); progs := progs (c_in c); sched := sched (c_in c) |}.
 
-Definition holds (c : case) : bool := spec_b tsig tverify (fst c) (map (map x_obs) (o_outs (snd c))).
+Definition mfinal (c : case) : state tsig :=
+  match s_workers (c_set c) with None => tfinal (m_in c) | Some ws => twfinal (m_in c) ws end.
+Definition mfinal_v0 (c : case) : state tsig :=
+  match s_workers (c_set c) with None => tfinal_v0 (m_in c) | Some ws => twfinal_v0 (m_in c) ws end.
+
+Definition agrees (c : case) : bool :=
+  let o := c_obs c in let st := mfinal c in
+  same_outs (outs_x (s_certs (c_set c)) st) (o_outs o)
+  && list_eqb ev_eqb (trace st) (o_trace o)
+  && Bool.eqb (finished tsig st) (o_complete o)
+  && list_eqb Nat.eqb (s_certs (c_set c)) (o_certs o).
+
+Definition holds (c : case) : bool := spec_b tsig tverify (c_in c) (map (map x_obs) (o_outs (c_obs c))).
 
 (* finding class 1 (fixed by c928ba99): the observed results are exactly those of the old code
    (key stored on the shared signer object) and not those of the current one *)
 Definition cls (c : case) : nat :=
-  let x := fst c in let o := snd c in
-  if same_outs (outs_x (keys x) (tfinal_v0 x)) (o_outs o) && negb (same_outs (outs_x (keys x) (tfinal x)) (o_outs o))
+  let o := c_obs c in let ks := s_certs (c_set c) in
+  if same_outs (outs_x ks (mfinal_v0 c)) (o_outs o) && negb (same_outs (outs_x ks (mfinal c)) (o_outs o))
   then 1 else 0.
 
 Definition run := run_cases agrees holds cls.
 
 Definition explain (c : case) :=
-  let x := fst c in
-  (outs_x (keys x) (tfinal x), trace (tfinal x), finished tsig (tfinal x), outs_x (keys x) (tfinal_v0 x), holds c).
+  (outs_x (s_certs (c_set c)) (mfinal c), trace (mfinal c), finished tsig (mfinal c),
+   (keys (c_in c), s_keys (c_set c), s_certs (c_set c)), outs_x (s_certs (c_set c)) (mfinal_v0 c), holds c).
 
 (* Cases run with line- or bytecode-granular scheduling points (sys.settrace in the workers): those
    points are not named by the model, so only the results are compared.  By c20_complete_results the
